@@ -548,11 +548,19 @@ func checkCmd(args []string) int {
 			}
 		}
 	}
-	// claimed groups that disappeared
+	// claimed groups that disappeared - or whose function hit the generation budget: the obligations of the paths
+	// that were explored say nothing about the paths that were not
 	var missing []string
 	for n := range base.Groups {
-		if _, ok := gs[n]; !ok {
+		if g, ok := gs[n]; !ok {
 			missing = append(missing, n)
+		} else if len(g.Bad) == 0 {
+			for short, f := range funcStatus {
+				if f.CapHit && strings.HasPrefix(n, short+"/") {
+					missing = append(missing, n)
+					break
+				}
+			}
 		}
 	}
 	sort.Strings(missing)
